@@ -354,8 +354,9 @@ class Explorer:
                 res = fn(interp)
                 self.path_results.append(('ok', res, list(interp.decisions)))
             except PanicReached as p:
-                model = None
-                if self.smt.check() == z3.sat:
+                model = getattr(p, 'model', None)
+                links = getattr(interp, 'path_links', None) or []
+                if model is None and self.smt.check(*links) == z3.sat:
                     model = self.smt.model()
                 self.findings.append(Finding(p.kind, p.msg, model, getattr(p, 'where', ''), list(interp.decisions)))
                 self.path_results.append(('panic', p.msg, list(interp.decisions)))
@@ -404,6 +405,7 @@ class Interp:
 
     # -- path management ---------------------------------------------------------------------
     def begin_path(self, prefix, work):
+        self.path_links = None
         self.prefix = prefix
         self.work = work
         self.decisions = []
@@ -1190,6 +1192,11 @@ class Interp:
                 return Sc(ty, lo & mask(w))
             return Sc(ty, int(x) & mask(w))
         X = a.v
+        views = getattr(self.smt, 'int_views', None)
+        if views:
+            v = views.get((X.get_id(), ty))
+            if v is not None:
+                return Sc(ty, v[1])
         fhi = z3.FPVal(float(hi + 1), S.F64)   # 2^63 / 2^64 exactly representable
         flo = z3.FPVal(float(lo), S.F64)
         conv = z3.fpToSBV(S.RTZ, X, z3.BitVecSort(w)) if signed else z3.fpToUBV(S.RTZ, X, z3.BitVecSort(w))
